@@ -35,12 +35,77 @@ contract(f"{M}:RtcpRrPacket.parse", params={"data": "bytes", "count": "int"}, re
          fresh_result=True, tags=["C07", "C05"],
          witness=[{"data": bytes(range(28)), "count": 1}])
 
+# the harness returns the wire bytes and the slice handed to the parser too, so that the argument can be stated in steps
+# (each clause is assumed for the next); the round trip proper is the last three clauses
 harness("roundtrip_rr_packet", M, """
 def h(x):
     b = bytes(x)
-    return RtcpRrPacket.parse(b[4:], b[0] & 0x1F)
-""", params={"x": "RtcpRrPacket"}, returns="RtcpRrPacket",
+    d = b[4:]
+    return (b, d, RtcpRrPacket.parse(d, b[0] & 0x1F))
+""", params={"x": "RtcpRrPacket"}, returns="tuple[bytes,bytes,RtcpRrPacket]",
         requires=[RR_OK.format("x")], raises={},
-        ensures=["result.ssrc == x.ssrc", "len(result.reports) == len(x.reports)",
-                 "forall(lambda j: result.reports[j] == x.reports[j], 0, len(x.reports))"],
+        ensures=["len(result[0]) == 8 + 24 * len(x.reports) and len(result[2].reports) == len(x.reports)",
+                 "len(result[1]) == 4 + 24 * len(x.reports) and result[1] == result[0][4:]",
+                 "forall(lambda j: ri_at(result[0], 8 + 24 * j, x.reports[j]), 0, len(x.reports))",
+                 "forall(lambda j: ri_at(result[1], 4 + 24 * j, result[2].reports[j]), 0, len(x.reports))",
+                 "forall(lambda j: ri_at(result[0], 8 + 24 * j, result[2].reports[j]), 0, len(x.reports))",
+                 "result[2].ssrc == x.ssrc", "len(result[2].reports) == len(x.reports)",
+                 "forall(lambda j: result[2].reports[j] == x.reports[j], 0, len(x.reports))"],
+        tags=["C07"])
+
+# ---------------------------------------------------------------------------- sender reports (same shape, 20 more bytes)
+klass(f"{M}:RtcpSrPacket", fields={"ssrc": "int", "sender_info": "RtcpSenderInfo", "reports": "list[RtcpReceiverInfo]"})
+
+SR_OK = ("0 <= {0}.ssrc < (1 << 32) and si_wire_ok({0}.sender_info) and len({0}.reports) < 32 and "
+         "all_in({0}.reports, lambda r: ri_wire_ok(r))")
+
+contract(f"{M}:RtcpSrPacket.__bytes__", returns="bytes",
+         requires=[SR_OK.format("self")],
+         raises={},
+         ensures=["len(result) == 28 + 24 * len(self.reports)",
+                  "result[0] == 128 + len(self.reports) and result[1] == 200 and u16(result, 2) == 6 + 6 * len(self.reports)",
+                  "u32(result, 4) == self.ssrc", "si_at(result, 8, self.sender_info)",
+                  "forall(lambda j: ri_at(result, 28 + 24 * j, self.reports[j]), 0, len(self.reports))"],
+         loops={0: dict(kind="for", index="i",
+                        invariant=["len(payload) == 24 + 24 * i", "u32(payload, 0) == self.ssrc",
+                                   "si_at(payload, 4, self.sender_info)",
+                                   "forall(lambda j: ri_at(payload, 24 + 24 * j, self.reports[j]), 0, i)"])},
+         tags=["C07"],
+         witness=[{"self": {"$class": "RtcpSrPacket", "ssrc": 7,
+                            "sender_info": {"$class": "RtcpSenderInfo", "ntp_timestamp": 1 << 40, "rtp_timestamp": 2,
+                                            "packet_count": 3, "octet_count": 4},
+                            "reports": [{"$class": "RtcpReceiverInfo", "ssrc": 1, "fraction_lost": 2, "packets_lost": -3,
+                                         "highest_sequence": 70000, "jitter": 5, "lsr": 6, "dlsr": 7}]}}])
+
+contract(f"{M}:RtcpSrPacket.parse", params={"data": "bytes", "count": "int"}, returns="RtcpSrPacket",
+         requires=["0 <= count < 32"],      # the 5-bit count of the RTCP header (RtcpPacket.parse is the only caller)
+         raises={"ValueError": "len(data) != 24 + 24 * count"},
+         ensures=["result.ssrc == u32(data, 0)", "si_at(data, 4, result.sender_info) and si_wire_ok(result.sender_info)",
+                  "len(result.reports) == count",
+                  "forall(lambda j: ri_at(data, 24 + 24 * j, result.reports[j]), 0, count)",
+                  "forall(lambda j: ri_wire_ok(result.reports[j]), 0, count)"],
+         locals={"reports": "list[RtcpReceiverInfo]"},
+         loops={0: dict(kind="for", index="r",
+                        invariant=["pos == 24 + 24 * r", "len(reports) == r", "fresh(reports)",
+                                   "si_at(data, 4, sender_info) and si_wire_ok(sender_info)",
+                                   "forall(lambda j: ri_wire_ok(reports[j]), 0, r)",
+                                   "forall(lambda j: ri_at(data, 24 + 24 * j, reports[j]), 0, r)"],
+                        modifies=["content(reports)"])},
+         fresh_result=True, tags=["C07", "C05"],
+         witness=[{"data": bytes(range(48)), "count": 1}])
+
+harness("roundtrip_sr_packet", M, """
+def h(x):
+    b = bytes(x)
+    d = b[4:]
+    return (b, d, RtcpSrPacket.parse(d, b[0] & 0x1F))
+""", params={"x": "RtcpSrPacket"}, returns="tuple[bytes,bytes,RtcpSrPacket]",
+        requires=[SR_OK.format("x")], raises={},
+        ensures=["len(result[0]) == 28 + 24 * len(x.reports) and len(result[2].reports) == len(x.reports)",
+                 "len(result[1]) == 24 + 24 * len(x.reports) and result[1] == result[0][4:]",
+                 "forall(lambda j: ri_at(result[0], 28 + 24 * j, x.reports[j]), 0, len(x.reports))",
+                 "forall(lambda j: ri_at(result[1], 24 + 24 * j, result[2].reports[j]), 0, len(x.reports))",
+                 "forall(lambda j: ri_at(result[0], 28 + 24 * j, result[2].reports[j]), 0, len(x.reports))",
+                 "result[2].ssrc == x.ssrc", "result[2].sender_info == x.sender_info",
+                 "forall(lambda j: result[2].reports[j] == x.reports[j], 0, len(x.reports))"],
         tags=["C07"])
